@@ -221,9 +221,11 @@ class Body:
         return sorted(res.items())
 
     # ---- statements / locations ----------------------------------------
-    def locations(self):
-        """Yield (bb, idx, stmt_or_term, is_term)."""
+    def locations(self, cleanup=False):
+        """Yield (bb, idx, stmt_or_term, is_term) for normal (non-cleanup) blocks."""
         for bi, b in enumerate(self.blocks):
+            if b["cleanup"] and not cleanup:
+                continue
             for si, s in enumerate(b["stmts"]):
                 yield bi, si, s, False
             yield bi, len(b["stmts"]), b["term"], True
@@ -249,7 +251,7 @@ class Body:
         if self._defs is None:
             d = defaultdict(list)
             pd = defaultdict(list)
-            for bi, si, s, is_term in self.locations():
+            for bi, si, s, is_term in self.locations(cleanup=False):
                 if not is_term and s["k"] == "assign":
                     pl = s["place"]
                     (d if not pl["p"] else pd)[pl["l"]].append((bi, si, "assign", s))
